@@ -80,7 +80,10 @@ def check(ctx):
         ctx.inst('R1', land, 'nothing-streamed-after-stop', not emit, 'set-point emitting calls after the thread was stopped: %s' % emit)
     else:
         ctx.inst('R1', land, 'nothing-streamed-after-stop', False, 'the set-point thread is never stopped')
-    ctx.inst('R1', land, 'descend-by-current-height', any(t == 'self.down(self._thread.get_height(), velocity)' for t in texts), 'land descends by the current height')
+    gl = cfg_of(land)
+    dn = gl.find(lambda q: method_call(q, 'down') and norm(q.func.value) == 'self')
+    ctx.inst('R1', land, 'descend-by-current-height', len(dn) == 1 and len(dn[0][1].args) == 2 and norm(gl.resolve_local(dn[0][0], dn[0][1].args[0])) == 'self._thread.get_height()' and
+             norm(dn[0][1].args[1]) == land.params[1], 'land descends by the current height (read from the set-point thread), at the given velocity')
     g = cfg_of(land)
     stops = g.find(lambda n: method_call(n, 'send_stop_setpoint'))
     ctx.inst('R1', land, 'stop-only-if-flying', bool(stops) and all(fact_key('self._is_flying', True) in g.fact_keys_at(n) for n, _ in stops), 'landing commands are issued only when flying')
